@@ -5,7 +5,7 @@
    interleaving of their critical sections with the sections of the executeJob goroutines, job returns at any time,
    cancellations, errCh traffic, wake-ups in any order).
    Job ids are positions in the global enqueue order (order of the Enqueue critical sections, batch order inside). *)
-From Util Require Import Common.Base Common.ListLemmas Conc.Model Conc.Proofs.
+From Util Require Import Common.Base Common.ListLemmas Conc.Model Conc.Spec Conc.Proofs.
 
 (* the running counter never exceeds a positive limit *)
 Theorem c18_running_le_limit : forall lim ninit es,
@@ -97,6 +97,20 @@ Theorem c18_size_is_queue_length : forall lim ninit es,
 Proof. exact size_is_queue_length. Qed.
 Print Assumptions c18_size_is_queue_length.
 
+(* the monitors (Spec.clauses, evaluated on decoded observations) accept every reachable model state in which no
+   blocked WaitIdle has a closed wait channel (the states the eager schedule of the correspondence run produces) *)
+Theorem c18_clauses_hold_in_model : forall s, Inv s -> Settled s ->
+  clauses (limit s) (kinds s) (map atrip (acts s)) (map jtrip (jobs s)) = [].
+Proof. exact clauses_ok. Qed.
+Print Assumptions c18_clauses_hold_in_model.
+
+(* model_satisfies_monitors: for every configuration and every history, running the monitors on the observations the
+   model itself produces (as long as it accepts the events) reports nothing *)
+Theorem c18_model_satisfies_monitors : forall cfg evs,
+  monitor mon 0 (minit cfg) [] evs (run_obs hstep (hinit cfg) evs) = [].
+Proof. exact model_satisfies_monitors. Qed.
+Print Assumptions c18_model_satisfies_monitors.
+
 (* ---------------- non-vacuity ---------------- *)
 (* limit 2, one initial element, Enqueue(4 jobs): two run, three are queued; the pair returned is (3, 2) *)
 Example c18_example_bounded :
@@ -144,3 +158,11 @@ Example c18_example_constructor_two_phase :
   forallb (fun lim => forallb (fun n => st_eqb_core (init lim n) (init_two_phase lim n)) (seq 0 8))
           [(-2)%Z; (-1)%Z; 0%Z; 1%Z; 2%Z; 3%Z; 4%Z; 5%Z; 9%Z] = true.
 Proof. vm_compute. reflexivity. Qed.
+
+(* the correspondence-level run of a corpus history is accepted step by step and produces observations *)
+Example c18_example_hstep_run :
+  let evs := [[1; 2]; [1; 1]; [4; 1]; [2; 0]; [4; 2]; [4; 0]; [4; 2]; [6; 0]; [5; 0]; [6; 0]; [5; 0]; [6; 0]; [5; 0]; [4; 2]]%N in
+  let obss := run_obs hstep (hinit [0; 1; 0]%N) evs in
+  length obss = 14 /\ last obss [] = [3; 3; 7; 2; 1; 7; 0; 1; 4; 0; 0; 1; 1; 8; 1; 1; 0; 1; 1; 0]%N /\
+  run_check_conc [0; 1; 0]%N evs obss = [].
+Proof. vm_compute. repeat split; reflexivity. Qed.
